@@ -109,7 +109,7 @@ func TestPropRemovalAfterAnEndpointDied(t *testing.T) {
 			if !ended.IsZero() {
 				t.Fatalf("a stream served by the live endpoint B ended (%v) when the dead endpoint A was removed from the cluster\nplan: %s", err, plan)
 			}
-			if n < at[i]+5 {
+			if i := i; n < at[i]+5 && !waitFor(2*time.Second, func() bool { m, _, _, _ := s.snapshot(); return m >= at[i]+5 }) {
 				t.Fatalf("a stream served by the live endpoint B stalled when the dead endpoint A was removed (%d chunks at removal, %d 300 ms later)\nplan: %s", at[i], n, plan)
 			}
 		}
